@@ -22,7 +22,7 @@
    first-character set (FcPrefix).  *)
 From Verif Require Import Base.Prelude Model.CharClass Base.Utf8 Model.Tree Model.Spec Model.Analysis Model.Analysis2
      Proofs.AnalysisReach Proofs.AnalysisProofs Proofs.AnalysisPrefix Proofs.AnalysisFacts
-     Proofs.Analysis2Cls Proofs.Analysis2Ffcc Proofs.Analysis2Fixed.
+     Proofs.Analysis2Cls Proofs.Analysis2Ffcc Proofs.Analysis2Fixed Proofs.Analysis2Lal.
 
 (* ---- MinRequiredLength / MaxPossibleLength --------------------------------------------------- *)
 
@@ -334,6 +334,51 @@ Proof.
 Qed.
 Print Assumptions C04_fixed_distance_sets_sound.
 
+(* findLiteralFollowingLeadingLoop (prefixanalyzer.go:1158) published (LoopNode.Set = set id lal_loop, literal):
+   every successful attempt at p of a left-to-right pattern reads a run of loop-set characters p .. k-1 and
+   the literal occurs at k -- what runner.go's findLiteralAfterLoopLeftToRight relies on: it finds the first
+   occurrence of the literal at or after the scan position and walks back over loop-set characters, so it never
+   steps over a match start.  "Occurs at k" (lal_lit_at): Char c: k < n and text[k] = c; Chars: text[k] is one of
+   them; String (case-sensitive, the Go string as UTF-8 bytes; valid UTF-8 on every real pattern, checked by the
+   leg): the text from k starts with its runes; String (ordinal ignore-case, ASCII): every text character is
+   the published character or, for a published lower-case letter, its upper-case form (ci_match).
+   The input is a sequence of valid scalar values (no surrogates: the literal went through a Go string). *)
+Theorem C04_literal_after_loop_sound :
+  forall e (cat_in : Z -> Z -> bool) (part_cc : Z -> bool) (sets : list cls) fuel root p s' L,
+    forallb cls_good_b sets = true ->
+    (forall id x, set_in e id x = char_in cat_in (set_cls sets id) x) ->
+    tlen e < INF -> forallb Utf8.valid_rune (txt e) = true ->
+    shape_ok false root = true -> no_ci_lit root = true -> 0 <= p <= tlen e ->
+    find_lit_after_loop cat_in part_cc sets root = Ok (Some L) ->
+    attempt e fuel root p = Ok (Some s') ->
+    exists k, p <= k <= tlen e /\
+      (forall i, p <= i < k -> set_in e (lal_loop L) (char_at e i) = true) /\
+      lal_lit_at e (lal_what L) k.
+Proof.
+  intros e cat_in part_cc sets fuel root p s' L Hg Ha Hshort Hsc.
+  exact (a2_lit_after_loop_sound e cat_in part_cc sets (sets_good_b cat_in sets Hg) Ha Hshort Hsc fuel root p s' L).
+Qed.
+Print Assumptions C04_literal_after_loop_sound.
+
+(* findPrefixOrdinalCaseInsensitive (prefixanalyzer.go:214): the text read by a node from position pos s matches
+   the published ASCII string case-insensitively *)
+Theorem C04_ci_prefix_sound :
+  forall e (cat_in : Z -> Z -> bool) (part_cc : Z -> bool) (sets : list cls) fuel root p s',
+    forallb cls_good_b sets = true ->
+    (forall id x, set_in e id x = char_in cat_in (set_cls sets id) x) ->
+    tlen e < INF ->
+    shape_ok false root = true -> no_ci_lit root = true -> 0 <= p <= tlen e ->
+    attempt e fuel root p = Ok (Some s') ->
+    forall i, 0 <= i < zlen (ci_prefix cat_in part_cc sets root) ->
+      p + i < tlen e /\
+      ci_match (nth (Z.to_nat i) (ci_prefix cat_in part_cc sets root) 0) (char_at e (p + i)) = true.
+Proof.
+  intros e cat_in part_cc sets fuel root p s' Hg Ha Hshort Hs Hn Hp Hat.
+  pose proof (attempt_reach e _ _ _ _ Hat) as Hr.
+  exact (ci_prefix_sound e cat_in part_cc sets (sets_good_b cat_in sets Hg) Ha Hshort root _ _ Hr Hs Hn Hp).
+Qed.
+Print Assumptions C04_ci_prefix_sound.
+
 (* ---- non-vacuity ---- *)
 Definition ex2_sets : list cls := [ranges_cls [(98, 99)]].                       (* [bc] *)
 Definition ex2_cat : Z -> Z -> bool := fun _ _ => false.
@@ -379,4 +424,16 @@ Example C04_witness_first_char_class :
   attempt (ex2_env [100; 99]) 10 ex2_ffcc 0 = Ok None /\
   find_first_char_class ex2_cat ex2_sets
     (NCapture 0 0 (-1) (NConcat 0 [NCharLoop COne LGreedy 0 97 0 INF; NCharLoop COne LGreedy 0 98 0 INF])) = None.
+Proof. vm_compute. repeat split; reflexivity. Qed.
+
+(* [bc]*d+ on "bcbd": the literal 'd' after the loop set [bc]; k = 3 *)
+Definition ex2_lal : node :=
+  NCapture 0 0 (-1) (NConcat 0 [NCharLoop CSet LGreedy 0 0 0 INF; NCharLoop COne LGreedy 0 100 1 INF]).
+Example C04_witness_literal_after_loop :
+  shape_ok false ex2_lal = true /\ no_ci_lit ex2_lal = true /\
+  find_lit_after_loop ex2_cat (fun _ => true) ex2_sets ex2_lal = Ok (Some {| lal_loop := 0; lal_what := LalChar 100 |}) /\
+  attempt (ex2_env [98; 99; 98; 100]) 10 ex2_lal 0 = Ok (Some {| pos := 4; caps := [(0, [(0, 4)])] |}) /\
+  attempt (ex2_env [98; 97; 100]) 10 ex2_lal 0 = Ok None /\
+  find_lit_after_loop ex2_cat (fun _ => true) ex2_sets
+    (NCapture 0 0 (-1) (NConcat 0 [NCharLoop CSet LGreedy 0 0 0 INF; NChar COne 0 98])) = Ok None.
 Proof. vm_compute. repeat split; reflexivity. Qed.
